@@ -262,3 +262,14 @@ func returnedDirectly(f *ssa.Function, v ssa.Value, i int) bool {
 	}
 	return false
 }
+
+// firstFn resolves the first of several spellings of an anchor (value vs pointer receiver).
+func firstFn(r *Run, pkg string, names ...string) *ssa.Function {
+	for _, n := range names {
+		if f := r.P.Func(pkg, n); f != nil && len(f.Blocks) > 0 && f.Synthetic == "" {
+			r.Counters["functions_analysed"]++
+			return f
+		}
+	}
+	panic(anchorErr{pkg + ":" + names[0]})
+}
